@@ -5,7 +5,9 @@ name=$1; shift
 cd /repo || exit 2
 [ -z "$(git status --porcelain)" ] || { echo "/repo not clean"; exit 2; }
 git apply /verif/seeded/$name/patch.diff || exit 2
-trap 'git -C /repo checkout -- .' EXIT
+# evidence files are rewritten by every run: keep the ones of the unchanged tree
+bk=$(mktemp -d /tmp/evbk.XXXXXX); cp /verif/evidence/*.json $bk/ 2>/dev/null
+trap 'git -C /repo checkout -- .; cp $bk/*.json /verif/evidence/ 2>/dev/null; rm -rf $bk' EXIT
 : > /verif/seeded/$name/result.txt
 for p in "$@"; do
   out=$(cd /verif && timeout 1800 ./check $p --tier quick 2>&1); rc=$?
